@@ -711,7 +711,11 @@ class Visitor(ast.NodeVisitor):
             args = []  # type: List[Any]
             for arg_node in node.args:
                 if isinstance(arg_node, ast.Starred):
-                    args.extend(self.visit(node=arg_node))
+                    recomputed_starred = self.visit(node=arg_node.value)
+                    if recomputed_starred is PLACEHOLDER:
+                        args.append(PLACEHOLDER)
+                    else:
+                        args.extend(recomputed_starred)
                 else:
                     args.append(self.visit(node=arg_node))
 
@@ -719,8 +723,12 @@ class Visitor(ast.NodeVisitor):
             for keyword in node.keywords:
                 if keyword.arg is None:
                     kw = self.visit(node=keyword.value)
-                    for key, val in kw.items():
-                        kwargs[key] = val
+                    if kw is PLACEHOLDER:
+                        # Please see "NOTE ABOUT PLACEHOLDERS AND RE-COMPUTATION"
+                        kwargs[PLACEHOLDER] = PLACEHOLDER
+                    else:
+                        for key, val in kw.items():
+                            kwargs[key] = val
 
                 else:
                     kwargs[keyword.arg] = self.visit(node=keyword.value)
